@@ -124,8 +124,24 @@ func main() {
 		}
 	}
 	if !hasImport {
-		fmt.Fprintln(os.Stderr, "autoyield: file does not import internal/simhook")
-		os.Exit(2)
+		// add the import to the first import declaration
+		added := false
+		for _, d := range f.Decls {
+			if gd, ok := d.(*ast.GenDecl); ok && gd.Tok == token.IMPORT {
+				spec := &ast.ImportSpec{Path: &ast.BasicLit{Kind: token.STRING, Value: `"github.com/bufbuild/protocompile/internal/simhook"`}}
+				gd.Specs = append(gd.Specs, spec)
+				if !gd.Lparen.IsValid() {
+					gd.Lparen = gd.Pos()
+					gd.Rparen = gd.End()
+				}
+				added = true
+				break
+			}
+		}
+		if !added {
+			fmt.Fprintln(os.Stderr, "autoyield: file has no import declaration to extend")
+			os.Exit(2)
+		}
 	}
 	ast.Inspect(f, func(n ast.Node) bool {
 		switch b := n.(type) {
